@@ -294,6 +294,128 @@ GetId() noexcept
 }
 
 /*------------------------------------------------------------------------------------------
+ * mutex / shared_mutex / condition_variable built on instrumented atomics, so that blocking
+ * primitives introduced by a change to the library stay visible to the scheduler
+ *----------------------------------------------------------------------------------------*/
+class Mutex
+{
+ public:
+  constexpr Mutex() noexcept = default;
+  Mutex(const Mutex &) = delete;
+  auto operator=(const Mutex &) -> Mutex & = delete;
+  void
+  lock() noexcept
+  {
+    for (;;) {
+      bool exp = false;
+      if (!held_.load(std::memory_order_relaxed) && held_.compare_exchange_strong(exp, true, std::memory_order_acquire, std::memory_order_relaxed)) return;
+      Yield();
+    }
+  }
+  bool
+  try_lock() noexcept
+  {
+    bool exp = false;
+    return held_.compare_exchange_strong(exp, true, std::memory_order_acquire, std::memory_order_relaxed);
+  }
+  void unlock() noexcept { held_.store(false, std::memory_order_release); }
+  using native_handle_type = void *;
+
+ private:
+  Atomic<bool> held_{false};
+};
+
+class SharedMutex
+{
+ public:
+  constexpr SharedMutex() noexcept = default;
+  SharedMutex(const SharedMutex &) = delete;
+  auto operator=(const SharedMutex &) -> SharedMutex & = delete;
+  void
+  lock() noexcept
+  {
+    for (;;) {
+      int exp = 0;
+      if (state_.load(std::memory_order_relaxed) == 0 && state_.compare_exchange_strong(exp, -1, std::memory_order_acquire, std::memory_order_relaxed)) return;
+      Yield();
+    }
+  }
+  bool
+  try_lock() noexcept
+  {
+    int exp = 0;
+    return state_.compare_exchange_strong(exp, -1, std::memory_order_acquire, std::memory_order_relaxed);
+  }
+  void unlock() noexcept { state_.store(0, std::memory_order_release); }
+  void
+  lock_shared() noexcept
+  {
+    for (;;) {
+      int cur = state_.load(std::memory_order_relaxed);
+      if (cur >= 0 && state_.compare_exchange_strong(cur, cur + 1, std::memory_order_acquire, std::memory_order_relaxed)) return;
+      Yield();
+    }
+  }
+  bool
+  try_lock_shared() noexcept
+  {
+    int cur = state_.load(std::memory_order_relaxed);
+    return cur >= 0 && state_.compare_exchange_strong(cur, cur + 1, std::memory_order_acquire, std::memory_order_relaxed);
+  }
+  void unlock_shared() noexcept { state_.fetch_sub(1, std::memory_order_release); }
+
+ private:
+  Atomic<int> state_{0};  // -1 exclusive, n >= 0 sharers
+};
+
+class CondVar
+{
+ public:
+  CondVar() noexcept = default;
+  CondVar(const CondVar &) = delete;
+  auto operator=(const CondVar &) -> CondVar & = delete;
+  void notify_one() noexcept { seq_.fetch_add(1, std::memory_order_release); }
+  void notify_all() noexcept { seq_.fetch_add(1, std::memory_order_release); }
+  template <class Lock>
+  void
+  wait(Lock &lk)
+  {
+    const auto s0 = seq_.load(std::memory_order_acquire);
+    lk.unlock();
+    while (seq_.load(std::memory_order_acquire) == s0) {
+    }
+    lk.lock();
+  }
+  template <class Lock, class Pred>
+  void
+  wait(Lock &lk, Pred p)
+  {
+    while (!p()) wait(lk);
+  }
+  // timed waits: the time-out is an environment answer the scheduler does not model; they behave
+  // like untimed waits that may also return spuriously once
+  template <class Lock, class Rep, class Period>
+  std::cv_status
+  wait_for(Lock &lk, const std::chrono::duration<Rep, Period> &)
+  {
+    lk.unlock();
+    Yield();
+    lk.lock();
+    return std::cv_status::timeout;
+  }
+  template <class Lock, class Rep, class Period, class Pred>
+  bool
+  wait_for(Lock &lk, const std::chrono::duration<Rep, Period> &d, Pred p)
+  {
+    if (!p()) (void)wait_for(lk, d);
+    return p();
+  }
+
+ private:
+  Atomic<uint32_t> seq_{0};
+};
+
+/*------------------------------------------------------------------------------------------
  * minimal shared_ptr / weak_ptr whose strong reference count is an instrumented atomic, so that
  * "the last owner went away" and "expired()" are visible, schedulable steps.
  *----------------------------------------------------------------------------------------*/
@@ -485,6 +607,10 @@ using vshim_atomic_int64_t = ::vshim::Atomic<int64_t>;
 using vshim_atomic_uint64_t = ::vshim::Atomic<uint64_t>;
 using vshim_atomic_uintptr_t = ::vshim::Atomic<uintptr_t>;
 using vshim_atomic_flag = ::vshim::AtomicFlag;
+using vshim_mutex = ::vshim::Mutex;
+using vshim_shared_mutex = ::vshim::SharedMutex;
+using vshim_condition_variable = ::vshim::CondVar;
+using vshim_condition_variable_any = ::vshim::CondVar;
 template <class T>
 using vshim_shared_ptr = ::vshim::SharedPtr<T>;
 template <class T>
@@ -542,6 +668,10 @@ vshim_mm_pause() noexcept
 #define atomic_uintptr_t vshim_atomic_uintptr_t
 #define atomic_flag vshim_atomic_flag
 #define atomic_thread_fence vshim_atomic_thread_fence
+#define mutex vshim_mutex
+#define shared_mutex vshim_shared_mutex
+#define condition_variable vshim_condition_variable
+#define condition_variable_any vshim_condition_variable_any
 #define shared_ptr vshim_shared_ptr
 #define weak_ptr vshim_weak_ptr
 #define make_shared vshim_make_shared
